@@ -1808,7 +1808,10 @@ def _conc_scenarios(ops, impl):
                 out.append(cur)
             cur = dict(prefix=["chf reset"], batch=[], go=None, fu=None, replay=[op], bad=None)
             continue
-        if cur is None or t[1] in ("notify", "burst"):
+        if cur is None or t[1] in ("notify", "burst", "hammer"):
+            continue
+        if t[1] == "cgf":
+            cur["replay"].append(op)
             continue
         cur["replay"].append(op)
         if t[1] == "seq":
@@ -1868,11 +1871,16 @@ def _conc_check(res, ops, impl, gmp, pid):
         res.dist["in-flight=%d" % k] += 1
         res.dist["GOMAXPROCS=%d" % gmp] += 1
         go = sc["go"]
+        if go == "skipped":
+            res.dist["skipped-after-deadlock"] += 1
+            res.evaluations -= 1
+            continue
         if sc["bad"] or go in ("crash", "panic") or not go.startswith("done="):
             res.violation("oracle", "%s: " % pid + "crash while requests were in flight (%s)" % (sc["bad"] or go)[:100], sc["replay"] + ["# impl: " + go[:300]])
             continue
         if go.startswith("done=0"):
-            res.violation("oracle", "%s: " % pid + "%d concurrent requests did not all return within 20 s (deadlock)" % k, sc["replay"] + ["# impl: " + go])
+            res.violation("oracle", "%s: " % pid + ("%d concurrent requests did not all return within 20 s (deadlock)" % k if k > 1 else
+                                                     "a request (nothing else in flight) did not return within 20 s (deadlock)"), sc["replay"] + ["# impl: " + go])
             continue
         gt = go.split(" ")
         rs = gt[2][2:].split(";")
@@ -1944,6 +1952,18 @@ def explore_c09(ctx, res, replay_ops=None):
         _conc_extra(res, ops, impl, "C09")
         _hammer_check(res, ops, impl, "C09")
         _conc_check(res, ops, impl, gmp, "C09")
+    # CDR transfer to the billing domain enabled (cgf): requests while the FTP control connection is up, after the billing domain dropped
+    # it, while it is unreachable - one request at a time under the batch deadline; on the build without the race detector
+    if replay_ops is None:
+        cops = core.harness_gen(ctx.harness, "conc", ctx.seed, 0, ctx.tier, ("-mode", "cgf"))
+        cimpl = core.harness_run(ctx.harness, "conc", cops, env_extra={"GOMAXPROCS": "4"})
+        _race_scan(res, "C09", cops, 4, "CDR transfer to the billing domain enabled")
+        for op, im in zip(cops, cimpl):
+            if op.startswith("conc cgf ") and not im.startswith("ok"):
+                res.violation("oracle", "C09: the CDR-transfer scenario could not be set up (%s)" % im, [op, "# impl: " + im], found_input=False)
+            elif op.startswith("conc cgf "):
+                res.dist["cgf:" + op.split()[2]] += 1
+        _conc_check(res, cops, cimpl, 4, "C09")
     res.rule = ("batches of 2-5 (thorough: up to 16) requests released together through the real router, built with the Go race detector, under "
                 "GOMAXPROCS %s: k updates of one session; updates of two sessions + a release + a recharge notification of one subscriber; k creates "
                 "of the same new SUPI; creates and updates of different subscribers. All must return within 20 s; no race report, no fatal error; "
